@@ -435,6 +435,16 @@ func cmdCheck(args []string) int {
 		fmt.Printf("ERROR no function under contract for property %s\n", prop)
 		return 2
 	}
+	// Verification is modular: a function of the property is checked against the contracts of
+	// its callees, so every callee contract it relies on has to hold too - whatever properties
+	// that contract was written for. Close the set under "calls a function under contract".
+	deps := contractDeps(P, C, keys)
+	depOnly := map[string]bool{}
+	for _, k := range deps {
+		depOnly[k] = true
+	}
+	keys = append(keys, deps...)
+	sort.Strings(keys)
 	secs := 15
 	all := false
 	if tier == "thorough" {
@@ -447,7 +457,7 @@ func cmdCheck(args []string) int {
 	wd, _ := os.MkdirTemp("/var/tmp", "sonicvc-")
 	defer os.RemoveAll(wd)
 	opt := solveOpts{secs: secs, all: all, workdir: wd, keep: true}
-	filter := func(o *Obligation) bool { return hasProp(o.Props, prop) }
+	filter := func(o *Obligation) bool { return hasProp(o.Props, prop) || depOnly[o.Fn] || depOnly[stripTypeArgs(o.Fn)] }
 	res := verifyFunctions(P, C, keys, opt, filter)
 	// an obligation no solver decided within the limit is tried again, on its own and with
 	// four times the limit, before it is reported: a time-out under load is not a violation
@@ -819,3 +829,74 @@ var pathSuffixRe = regexp.MustCompile(`\.(p|e)[0-9]+`)
 // normObl drops the path/edge numbering of an obligation name: a finding is identified by
 // function, clause and return, not by the enumeration order of the paths that reach it.
 func normObl(name string) string { return pathSuffixRe.ReplaceAllString(name, "") }
+
+// contractDeps: functions under a (non-trusted) contract that the given functions call, directly
+// or through code that is executed in place, transitively; the given ones excluded.
+func contractDeps(P *Program, C *Contracts, roots []string) []string {
+	have := map[string]bool{}
+	for _, k := range roots {
+		have[k] = true
+	}
+	var out []string
+	seenFn := map[*ssa.Function]bool{}
+	var walk func(fn *ssa.Function)
+	visitCallee := func(callee *ssa.Function) {
+		if callee == nil || callee.Blocks == nil {
+			return
+		}
+		k := funcKey(callee)
+		fc := C.lookup(k)
+		if fc == nil || fc.Inline || fc.Pure {
+			walk(callee) // executed in place: its callees are ours
+			return
+		}
+		if fc.Trusted || fc.NoBody {
+			return
+		}
+		key := k
+		if C.Funcs[k] == nil {
+			key = stripTypeArgs(k)
+		}
+		if _, isInst := P.Funcs[k]; isInst {
+			key = k
+		}
+		if !have[key] {
+			have[key] = true
+			out = append(out, key)
+			walk(callee)
+		}
+	}
+	walk = func(fn *ssa.Function) {
+		if fn == nil || seenFn[fn] {
+			return
+		}
+		seenFn[fn] = true
+		for _, b := range fn.Blocks {
+			for _, ins := range b.Instrs {
+				switch x := ins.(type) {
+				case ssa.CallInstruction:
+					if callee := x.Common().StaticCallee(); callee != nil {
+						visitCallee(callee)
+					}
+				case *ssa.MakeClosure:
+					if f, ok := x.Fn.(*ssa.Function); ok {
+						visitCallee(f)
+					}
+				}
+			}
+		}
+	}
+	for _, k := range roots {
+		if fn := P.Funcs[k]; fn != nil {
+			walk(fn)
+		} else {
+			for ik, f := range P.Funcs {
+				if stripTypeArgs(ik) == k {
+					walk(f)
+				}
+			}
+		}
+	}
+	sort.Strings(out)
+	return out
+}
